@@ -106,4 +106,8 @@ Spec == Init /\ [][Next]_vars
 (* ---------------- behaviour generation: one case per initial state ---------------- *)
 EmitCase == (pc = "run" /\ out = <<>>) => PrintT(<<"CASE", impl, desc, inputs>>)
 GenOnly == pc = "run" /\ out = <<>>
+\* ---- liveness (checked by Merge_live.cfg): under weak fairness of the next-state action every behaviour comes to rest
+\* in a state without successor -- the modelled procedure terminates for every input, schedule and fault inside the bounds
+FairSpec == Spec /\ WF_vars(Next)
+Halts == <>[](~ENABLED Next)
 =============================================================================
